@@ -836,7 +836,7 @@ def _anchor(ctx, case, objs, when):
             got.update(span=[o.start, o.end], seq=_safe(lambda: str(o.sequence)), vtype=_safe(lambda: o.variant_type), qualifiers=norm(o.qualifiers))
         elif sk == "gene":
             want.update(ids=[spec.get("gene_id"), spec.get("gene_symbol"), spec.get("locus_tag")], qualifiers=norm(_q(spec)), n=len(spec["transcripts"]),
-                        span=[min(t["exons"][0][0] for t in spec["transcripts"]), max(t["exons"][-1][1] for t in spec["transcripts"])])
+                        span=[min(b[0] for t in spec["transcripts"] for b in t["exons"]), max(b[1] for t in spec["transcripts"] for b in t["exons"])])
             got.update(ids=[o.gene_id, o.gene_symbol, o.locus_tag], qualifiers=norm(o.qualifiers), n=len(o.transcripts), span=[o.start, o.end])
             if spec.get("guid"):
                 want["guid"], got["guid"] = spec["guid"], str(o.guid)
